@@ -65,7 +65,7 @@ def gen_case(rng, idx, tier):
     for x0, x1 in zip(ks, ks[1:]):
         fitnodes += ref.sample_points(x0, x1, p + 1)
     return {"A": cv.enc_curve(A, "frac"), "B": cv.enc_curve(B, "frac"), "nodes": lib.enc(nodes), "prog": prog, "cls": cls, "t": rng.choice([1, 1, 2]),
-            "params": lib.enc(params), "fitnodes": lib.enc(fitnodes)}
+            "params": lib.enc(params), "fitnodes": lib.enc(fitnodes), "order": rng.choice(["exact-first", "exact-last"])}
 
 
 class Pt:
@@ -209,8 +209,14 @@ def run_case(case, ctx):
     ctx.count("programs")
     if cls == "big":
         ctx.count("bigrational")
-    # ---------------- exact run
+    # ---------------- exact run (in half of the cases the other representations run first in the same process:
+    # the exact result must not depend on what ran before)
     minimal = cls == "minimal"
+    early = {}
+    if case.get("order") == "exact-last" and not minimal and cls != "big":
+        for nt in ["float", "npfloat"] + (["int"] if integral else []):
+            early[nt] = run_program(prog, case, nt)
+        ctx.count("exact_run_last")
     o = run_program(prog, case, "frac", minimal)
     if minimal:
         ctx.count("minimal_point")
@@ -263,7 +269,7 @@ def run_case(case, ctx):
     wc = gen.well_conditioned(U, W)
     ref_nums = [None if x is None else float(ref.fr(x)) for x in nums] if bad is None else None
     for nt in reps:
-        o = run_program(prog, case, nt)
+        o = early[nt] if nt in early else run_program(prog, case, nt)
         if not ctx.check(o.ok, f"{nt}:raises:{prog}:{o.exc_name}", f"{prog} with {nt} numbers raised {o.brief()} (works with Fractions)"):
             continue
         if not wc or ref_nums is None:
